@@ -26,3 +26,19 @@ func init() {
 		Assume: schedAssume,
 	}
 }
+
+var schedExploreAssume = []string{
+	"go toolchain, go build -overlay and go/packages are trusted",
+	"scheduling points are the synchronisation operations the rewriter routes through vsched (locks, channel operations, select, sleep, go); unsynchronised memory accesses are not interleaved (covered only by the auxiliary free-running race-detector pass)",
+	"the modelled primitive semantics (RWMutex writer preference, unbuffered/buffered channels, select with default, virtual sleep) match Go's",
+	"hosts behave like the recording hosts of the harness",
+}
+
+func init() {
+	cfgs["C17"] = checkCfg{
+		Variant: "sched", Validate: false,
+		Budget: dur(170, 1700),
+		Rule:   "stateless depth-first exploration of ALL schedules of the real VM (cores as threads of a cooperative scheduler) within a delay bound (quick 2, thorough 3 non-default scheduling choices) for programs that spawn 1-3 cores, share globals, spawn from spawned cores and die with fatal errors; states = executions explored, transitions = scheduling choice points passed; every violating schedule is replayed twice and must reproduce; distinct = distinct (scenario, host-visible observation, final scheduler state) records",
+		Assume: schedExploreAssume,
+	}
+}
